@@ -479,6 +479,226 @@ Proof.
 Qed.
 
 (* ------------------------------------------------------------------------------------------ *)
+(** * DELETE: the SPI loop *)
+
+Definition delete_spi_size (spis : list bytes) : N :=
+  match spis with s :: _ => N.of_nat (length s) | [] => 0%N end.
+
+Lemma delete_hdr_fits p spis : wf_body (B_DELETE p spis) ->
+  fits fmt_PayloadDELETE_to_bytes_0 [VN p; VN (delete_spi_size spis); VN (N.of_nat (length spis))].
+Proof.
+  cbn [wf_body]. intros (Hp & Hn & Hs). unfold fmt_PayloadDELETE_to_bytes_0, delete_spi_size.
+  destruct spis as [|s rest]; [| destruct Hs as [Hs _]; unfold len_of in Hs]; fits_tac.
+Qed.
+
+Lemma delete_layout p spis : wf_body (B_DELETE p spis) -> body_to_bytes (B_DELETE p spis) = ret (rfc_body (B_DELETE p spis)).
+Proof.
+  intros Hwf. cbn [body_to_bytes rfc_body]. fold (delete_spi_size spis).
+  rewrite pack_fits by (apply delete_hdr_fits; exact Hwf). rewrite bind_ret_l.
+  unfold delete_spi_size, len_of. reflexivity.
+Qed.
+
+Lemma slice_N_at (pre s tail : bytes) :
+  slice_N (pre ++ s ++ tail) (N.of_nat (length pre)) (N.of_nat (length s)) = s.
+Proof.
+  unfold slice_N. destruct (N.of_nat (length (pre ++ s ++ tail)) <=? N.of_nat (length pre))%N eqn:E.
+  - apply N.leb_le in E. rewrite !app_length in E. destruct s; [reflexivity | cbn [length] in E; lia].
+  - rewrite Nat2N.id. replace (N.to_nat (N.of_nat (length pre) + N.of_nat (length s))) with (length pre + length s)%nat by lia.
+    unfold slice. replace (length pre + length s - length pre)%nat with (length s) by lia.
+    rewrite skipn_app_exact, firstn_app_exact. reflexivity.
+Qed.
+
+Lemma delete_spis_enc sz (spis : list bytes) : forall pre,
+  Forall (fun x => length x = sz) spis ->
+  fst (delete_spis (length spis) (pre ++ concat spis) (N.of_nat (length pre)) (N.of_nat sz)) = Ok spis.
+Proof.
+  induction spis as [|s rest IH]; intros pre Hall; [reflexivity|].
+  inversion Hall as [|? ? Hs Hrest]; subst. cbn [length delete_spis concat].
+  rewrite fst_bind. cbn [tick fst]. rewrite fst_bind.
+  replace (N.of_nat (length pre) + N.of_nat (length s))%N with (N.of_nat (length (pre ++ s))) by (rewrite app_length; lia).
+  replace (pre ++ s ++ concat rest) with ((pre ++ s) ++ concat rest) at 1 by (rewrite <- app_assoc; reflexivity).
+  rewrite (IH (pre ++ s) Hrest). cbn [ret fst]. rewrite slice_N_at. reflexivity.
+Qed.
+
+Lemma delete_roundtrip p spis : wf_body (B_DELETE p spis) ->
+  fst (parse_delete (rfc_body (B_DELETE p spis))) = Ok (B_DELETE p spis).
+Proof.
+  intros Hwf. pose proof (delete_hdr_fits p spis Hwf) as Hh. cbn [wf_body] in Hwf. destruct Hwf as (Hp & Hn & Hs).
+  unfold parse_delete. cbn [rfc_body].
+  change (u8 p ++ u8 (match spis with s :: _ => len_of s | [] => 0%N end) ++ u16 (N.of_nat (length spis)) ++ concat spis)
+    with (pack_bytes fmt_PayloadDELETE_to_bytes_0 [VN p; VN (delete_spi_size spis); VN (N.of_nat (length spis))] ++ concat spis).
+  change fmt_PayloadDELETE_parse_0 with fmt_PayloadDELETE_to_bytes_0.
+  rewrite bind_unpack_at0 by exact Hh.
+  set (h := pack_bytes _ _).
+  assert (Hhl : length h = 4%nat) by (unfold h; rewrite pack_bytes_length by exact Hh; reflexivity).
+  rewrite fst_bind, Nat2N.id. change 4%N with (N.of_nat 4). rewrite <- Hhl.
+  assert (Hall : Forall (fun x => length x = N.to_nat (delete_spi_size spis)) spis).
+  { unfold delete_spi_size. destruct spis as [|s rest]; [constructor|]. destruct Hs as [_ Hs]. rewrite Nat2N.id. exact Hs. }
+  rewrite <- (N2Nat.id (delete_spi_size spis)).
+  rewrite (delete_spis_enc _ spis h Hall). reflexivity.
+Qed.
+
+(* ------------------------------------------------------------------------------------------ *)
+(** * TSi / TSr: the selector loop *)
+
+Definition tsel_addr_len (t : tsel) : nat := if N.eqb (ts_type t) 7 then 4%nat else 16%nat.
+
+Lemma wf_selector_addr t : wf_selector t ->
+  length (ts_saddr t) = tsel_addr_len t /\ length (ts_eaddr t) = tsel_addr_len t
+  /\ N.to_nat (ts_addr_len_to_bytes (ts_type t)) = tsel_addr_len t
+  /\ N.to_nat (ts_addr_len_parse (ts_type t)) = tsel_addr_len t
+  /\ ts_length_field (ts_addr_len_to_bytes (ts_type t)) = (8 + len_of (ts_saddr t) + len_of (ts_eaddr t))%N.
+Proof.
+  intros (_ & _ & _ & _ & Ha).
+  unfold tsel_addr_len, ts_addr_len_to_bytes, ts_addr_len_parse, ts_length_field, len_of,
+    TrafficSelector_Type_TS_IPV4_ADDR_RANGE.
+  destruct (N.eqb (ts_type t) 7); destruct Ha as [Hs He]; rewrite Hs, He; repeat split; reflexivity.
+Qed.
+
+Definition tsel_vals (t : tsel) : list val :=
+  [VN (ts_type t); VN (ts_proto t); VN (8 + len_of (ts_saddr t) + len_of (ts_eaddr t))%N;
+   VN (ts_sport t); VN (ts_eport t)].
+
+Lemma tsel_vals_fits t : wf_selector t -> fits fmt_TrafficSelector_parse_0 (tsel_vals t).
+Proof.
+  intros Hwf. destruct (wf_selector_addr t Hwf) as (Hs & He & _). destruct Hwf as (Hty & Hpr & Hsp & Hep & _).
+  unfold fmt_TrafficSelector_parse_0, tsel_vals, len_of. rewrite Hs, He. unfold tsel_addr_len.
+  fits_tac; split_ifs; lia.
+Qed.
+
+Lemma rfc_selector_split t :
+  rfc_selector t = pack_bytes fmt_TrafficSelector_parse_0 (tsel_vals t) ++ ts_saddr t ++ ts_eaddr t.
+Proof. reflexivity. Qed.
+
+Lemma rfc_selector_length t : length (rfc_selector t) = (8 + length (ts_saddr t) + length (ts_eaddr t))%nat.
+Proof. unfold rfc_selector. rewrite !app_length. cbn [u8 u16 length]. lia. Qed.
+
+Lemma tsel_to_bytes_ok t : wf_selector t -> tsel_to_bytes t = ret (rfc_selector t).
+Proof.
+  intros Hwf. destruct (wf_selector_addr t Hwf) as (Hs & He & Hal & _ & Hlf).
+  pose proof (tsel_vals_fits t Hwf) as Hf.
+  unfold tsel_to_bytes. rewrite Hal, Hlf.
+  rewrite pack_fits.
+  - rewrite rfc_selector_split. unfold tsel_vals, fmt_TrafficSelector_to_bytes_0, fmt_TrafficSelector_parse_0.
+    cbn [pack_bytes]. rewrite app_nil_r, <- !app_assoc. reflexivity.
+  - unfold fmt_TrafficSelector_to_bytes_0. unfold fmt_TrafficSelector_parse_0, tsel_vals in Hf.
+    cbn [fits] in *. tauto.
+Qed.
+
+Lemma tsels_to_bytes_ok sels : Forall wf_selector sels -> tsels_to_bytes sels = ret (concat (map rfc_selector sels)).
+Proof.
+  induction sels as [|t rest IH]; intros Hwf; [reflexivity|].
+  inversion Hwf as [|? ? Ht Hrest]; subst. cbn [tsels_to_bytes map concat].
+  rewrite (tsel_to_bytes_ok t Ht), bind_ret_l, (IH Hrest), bind_ret_l. reflexivity.
+Qed.
+
+Lemma ts_layout i sels : wf_body (B_TS i sels) -> body_to_bytes (B_TS i sels) = ret (rfc_body (B_TS i sels)).
+Proof.
+  cbn [wf_body]. intros (Hn & Hall). cbn [body_to_bytes rfc_body].
+  rewrite pack_fits by (unfold fmt_PayloadTS_to_bytes_0; fits_tac). rewrite bind_ret_l.
+  rewrite (tsels_to_bytes_ok sels Hall), bind_ret_l. reflexivity.
+Qed.
+
+Lemma except_raise_ret {A} (a : A) cls e : except_raise (ret a) cls e = ret a.
+Proof. reflexivity. Qed.
+
+Lemma parse_tsel_enc t : wf_selector t -> fst (parse_tsel (rfc_selector t)) = Ok t.
+Proof.
+  intros Hwf. destruct (wf_selector_addr t Hwf) as (Hs & He & _ & Hal & _).
+  pose proof (tsel_vals_fits t Hwf) as Hf.
+  unfold parse_tsel. rewrite rfc_selector_split.
+  set (h := pack_bytes fmt_TrafficSelector_parse_0 (tsel_vals t)).
+  assert (Hhl : length h = 8%nat) by (unfold h; rewrite pack_bytes_length by exact Hf; reflexivity).
+  rewrite bind_unpack_plain.
+  replace (0 + fmt_size fmt_TrafficSelector_parse_0 <=? length (h ++ ts_saddr t ++ ts_eaddr t))%nat with true
+    by (symmetry; apply Nat.leb_le; rewrite app_length, Hhl; cbn; lia).
+  cbn [skipn]. unfold h at 1. rewrite unpack_pack by exact Hf. unfold tsel_vals at 1. cbv beta iota.
+  rewrite Hal. rewrite bind_unpack_plain.
+  replace (ts_addr_offset + fmt_size (fmt_TrafficSelector_parse_1 (tsel_addr_len t)) <=? length (h ++ ts_saddr t ++ ts_eaddr t))%nat
+    with true
+    by (symmetry; apply Nat.leb_le; rewrite !app_length, Hhl, Hs, He; unfold ts_addr_offset; cbn [fmt_size fmt_TrafficSelector_parse_1]; lia).
+  unfold ts_addr_offset. rewrite <- Hhl at 1. rewrite skipn_app_exact.
+  replace (ts_saddr t ++ ts_eaddr t)
+    with (pack_bytes (fmt_TrafficSelector_parse_1 (tsel_addr_len t)) [VB (ts_saddr t); VB (ts_eaddr t)] ++ [])
+    by (cbn [pack_bytes fmt_TrafficSelector_parse_1]; rewrite !app_nil_r; reflexivity).
+  rewrite unpack_pack by (unfold fmt_TrafficSelector_parse_1; cbn [fits]; tauto).
+  rewrite except_raise_ret, bind_ret_l. cbn [ts_saddr ts_eaddr ts_type ts_proto ts_sport ts_eport].
+  unfold ip_address. rewrite Hs, He.
+  replace ((tsel_addr_len t =? 4)%nat || (tsel_addr_len t =? 16)%nat) with true
+    by (unfold tsel_addr_len; destruct (N.eqb (ts_type t) 7); reflexivity).
+  destruct t; reflexivity.
+Qed.
+
+Lemma unpack_ts_len (a rest : bytes) len : length a = 2%nat -> (len < 65536)%N ->
+  unpack_fields fmt_PayloadTS_parse_1 (a ++ be_encode 2 len ++ rest) = [VN (be_decode a); VN len].
+Proof.
+  intros Ha Hlen. unfold fmt_PayloadTS_parse_1.
+  assert (Hd : be_decode (be_encode 2 len) = len) by (apply be_decode_encode; rewrite pow2; exact Hlen).
+  pose proof (be_encode_length 2 len) as Hel. set (e := be_encode 2 len) in *.
+  cbn [unpack_fields]. rewrite <- Ha. rewrite firstn_app_exact, skipn_app_exact.
+  rewrite Ha, <- Hel. rewrite firstn_app_exact, Hd. reflexivity.
+Qed.
+
+Lemma slice_at (pre s tail : bytes) : slice (pre ++ s ++ tail) (length pre) (length pre + length s) = s.
+Proof.
+  unfold slice. replace (length pre + length s - length pre)%nat with (length s) by lia.
+  rewrite skipn_app_exact, firstn_app_exact. reflexivity.
+Qed.
+
+Lemma tsels_loop_enc sels : forall fuel pre,
+  Forall wf_selector sels -> (length sels < fuel)%nat ->
+  fst (tsels_loop fuel (pre ++ concat (map rfc_selector sels)) (length pre)) = Ok sels.
+Proof.
+  induction sels as [|t rest IH]; intros fuel pre Hwf Hfuel.
+  - destruct fuel; [lia|]. cbn [tsels_loop map concat]. rewrite app_nil_r, Nat.ltb_irrefl. reflexivity.
+  - inversion Hwf as [|? ? Ht Hrest]; subst. destruct fuel as [|f]; [lia|].
+    cbn [tsels_loop map concat].
+    set (sel := rfc_selector t). set (tail := concat (map rfc_selector rest)).
+    pose proof (rfc_selector_length t) as Hsl. fold sel in Hsl.
+    destruct (wf_selector_addr t Ht) as (Hs & He & _).
+    replace (length pre <? length (pre ++ sel ++ tail))%nat with true
+      by (symmetry; apply Nat.ltb_lt; rewrite !app_length; lia).
+    rewrite fst_bind. cbn [tick fst]. rewrite bind_unpack.
+    replace (length pre + fmt_size fmt_PayloadTS_parse_1 <=? length (pre ++ sel ++ tail))%nat with true
+      by (symmetry; apply Nat.leb_le; rewrite !app_length; cbn [fmt_size fmt_PayloadTS_parse_1]; lia).
+    rewrite skipn_app_exact.
+    assert (Hu : unpack_fields fmt_PayloadTS_parse_1 (sel ++ tail)
+                 = [VN (be_decode (u8 (ts_type t) ++ u8 (ts_proto t))); VN (8 + len_of (ts_saddr t) + len_of (ts_eaddr t))%N]).
+    { unfold sel, rfc_selector. rewrite <- !app_assoc. rewrite (app_assoc (u8 (ts_type t))).
+      rewrite <- be2. apply unpack_ts_len; [reflexivity|].
+      unfold len_of. rewrite Hs, He. unfold tsel_addr_len. split_ifs; lia. }
+    rewrite Hu.
+    replace (N.to_nat (8 + len_of (ts_saddr t) + len_of (ts_eaddr t))) with (length sel) by (unfold len_of; lia).
+    rewrite slice_at. rewrite fst_bind. unfold sel at 1. rewrite (parse_tsel_enc t Ht).
+    rewrite fst_bind. rewrite <- app_length, app_assoc.
+    unfold tail. rewrite (IH f (pre ++ sel) Hrest) by (cbn in Hfuel; lia).
+    reflexivity.
+Qed.
+
+Lemma selectors_length_ge sels : (length sels <= length (concat (map rfc_selector sels)))%nat.
+Proof.
+  induction sels as [|t rest IH]; [cbn; lia|]. cbn [map concat length]. rewrite app_length, rfc_selector_length. lia.
+Qed.
+
+Lemma ts_roundtrip i sels : wf_body (B_TS i sels) ->
+  fst (parse_ts i (rfc_body (B_TS i sels))) = Ok (B_TS i sels).
+Proof.
+  cbn [wf_body]. intros (Hn & Hall). unfold parse_ts. cbn [rfc_body].
+  set (body := concat (map rfc_selector sels)).
+  change (u8 (N.of_nat (length sels)) ++ [0; 0; 0]%N ++ body)
+    with (pack_bytes fmt_PayloadTS_parse_0 [VN (N.of_nat (length sels)); VB [0; 0; 0]%N] ++ body).
+  assert (Hh : fits fmt_PayloadTS_parse_0 [VN (N.of_nat (length sels)); VB [0; 0; 0]%N])
+    by (unfold fmt_PayloadTS_parse_0; fits_tac).
+  rewrite bind_unpack_at0 by exact Hh.
+  set (h := pack_bytes _ _).
+  assert (Hhl : length h = 4%nat) by (unfold h; rewrite pack_bytes_length by exact Hh; reflexivity).
+  rewrite fst_bind. rewrite <- Hhl. unfold body.
+  rewrite (tsels_loop_enc sels _ h Hall).
+  - rewrite N.eqb_refl. reflexivity.
+  - rewrite app_length. pose proof (selectors_length_ge sels). lia.
+Qed.
+
+(* ------------------------------------------------------------------------------------------ *)
 (** * The generic payload chain *)
 
 Definition body_ok (b : pbody) : Prop :=
@@ -760,8 +980,40 @@ Proof.
   apply (decode_clear_rfc dec dec mac m Hwf). apply body_ok_simple; [apply Hwf | exact Hs].
 Qed.
 
-(** non-vacuity: an IKE_SA_INIT-like message satisfying the hypotheses *)
-Definition example_msg : message :=
+(* ------------------------------------------------------------------------------------------ *)
+(** * The unrestricted statements: every well-formed body, DELETE and TSi/TSr included *)
+
+Lemma body_ok_wf b : wf_body b -> body_ok b.
+Proof.
+  intros Hwf. destruct b as [ps|g d|i t d|m d|n|p t spi d|p spis|v|i sels|c n].
+  7:{ split; [apply delete_layout; exact Hwf | cbn [body_class parse_body set_next]; apply delete_roundtrip; exact Hwf]. }
+  8:{ split; [apply ts_layout; exact Hwf |].
+      cbn [body_class set_next]. destruct i; cbn [parse_body]; apply ts_roundtrip; exact Hwf. }
+  all: split; [apply body_layout_simple | apply body_roundtrip_simple]; try exact Hwf; exact I.
+Qed.
+
+Lemma body_ok_chain ps : wf_chain ps -> Forall (fun p => body_ok (pl_body p)) ps.
+Proof.
+  induction ps as [|p rest IH]; intros Hwf; [constructor|].
+  destruct Hwf as (_ & Hb & _ & _ & Hrest).
+  constructor; [apply body_ok_wf; exact Hb | apply IH; exact Hrest].
+Qed.
+
+Theorem layout_full enc mac m : wf_msg m -> encode enc mac None m = Ok (rfc_encode m).
+Proof.
+  intros Hwf. unfold encode. rewrite (encode_clear_layout enc enc mac m Hwf); [reflexivity |].
+  apply body_ok_chain, Hwf.
+Qed.
+
+Theorem roundtrip_full enc dec mac m : wf_msg m ->
+  exists b, encode enc mac None m = Ok b /\ decode dec mac None false b = Ok m.
+Proof.
+  intros Hwf. exists (rfc_encode m). split; [apply layout_full; exact Hwf|].
+  apply (decode_clear_rfc dec dec mac m Hwf). apply body_ok_chain, Hwf.
+Qed.
+
+(** non-vacuity of the partial statements: an IKE_SA_INIT-like message without DELETE / TS payloads *)
+Definition example_msg_simple : message :=
   mkMessage [1;2;3;4;5;6;7;8]%N [0;0;0;0;0;0;0;0]%N 2 0 34 false false true 0
     [mkPayload false (B_SA [mkProposal 1 1 [] [mkTransform 1 12 (Some 256%N); mkTransform 2 5 None;
                                                mkTransform 3 12 None; mkTransform 4 14 None]]);
@@ -771,10 +1023,40 @@ Definition example_msg : message :=
      mkPayload false (B_VENDOR [112; 121]%N)]
     [] None false.
 
-Lemma example_msg_wf : wf_msg example_msg /\ simple_chain (m_payloads example_msg).
+Lemma example_msg_simple_wf : wf_msg example_msg_simple /\ simple_chain (m_payloads example_msg_simple).
 Proof.
   split.
-  - unfold wf_msg, example_msg; cbn -[N.lt N.le]. repeat split; try reflexivity; try lia; try discriminate;
+  - unfold wf_msg, example_msg_simple; cbn -[N.lt N.le]. repeat split; try reflexivity; try lia; try discriminate;
       repeat constructor; cbn; try lia; try discriminate.
-  - unfold simple_chain, example_msg; cbn. repeat constructor.
+  - unfold simple_chain, example_msg_simple; cbn. repeat constructor.
+Qed.
+
+(** non-vacuity of the full statements: the same message with a DELETE (two 4-octet SPIs), a TSi (an IPv4 and an
+    IPv6 selector) and a TSr payload added *)
+Definition example_msg : message :=
+  mkMessage [1;2;3;4;5;6;7;8]%N [0;0;0;0;0;0;0;0]%N 2 0 34 false false true 0
+    [mkPayload false (B_SA [mkProposal 1 1 [] [mkTransform 1 12 (Some 256%N); mkTransform 2 5 None;
+                                               mkTransform 3 12 None; mkTransform 4 14 None]]);
+     mkPayload false (B_KE 14 [9; 9; 9; 9]%N);
+     mkPayload false (B_NONCE (repeat 7%N 16));
+     mkPayload false (B_NOTIFY 0 16388 [] [1; 2; 3]%N);
+     mkPayload false (B_DELETE 3 [[1; 2; 3; 4]; [5; 6; 7; 8]]%N);
+     mkPayload false (B_TS true [mkTsel 7 6 0 65535 [10; 0; 0; 0]%N [10; 0; 0; 255]%N;
+                                 mkTsel 8 0 0 65535 (repeat 0%N 16) (repeat 255%N 16)]);
+     mkPayload false (B_TS false [mkTsel 7 17 500 500 [192; 168; 1; 1]%N [192; 168; 1; 1]%N]);
+     mkPayload false (B_VENDOR [112; 121]%N)]
+    [] None false.
+
+Lemma example_msg_wf : wf_msg example_msg.
+Proof.
+  unfold wf_msg, example_msg; cbn -[N.lt N.le]. repeat split; try reflexivity; try lia; try discriminate;
+    repeat constructor; cbn; try lia; try discriminate.
+Qed.
+
+(** the example does contain the two kinds of payload the partial statements exclude *)
+Lemma example_msg_not_simple : ~ simple_chain (m_payloads example_msg).
+Proof.
+  unfold simple_chain, example_msg. cbn [m_payloads]. intros H.
+  repeat match goal with H : Forall _ (_ :: _) |- _ => inversion H; clear H; subst end.
+  cbn in *. assumption.
 Qed.
